@@ -237,6 +237,10 @@ func runProperty(prop, tier, repo string, cs *Contracts, timeout int, verbose bo
 				r.notes = append(r.notes, fmt.Sprintf("%s@%s: %s", k, cfg.name, n))
 			}
 			for _, t := range res.Trusted {
+				if strings.HasPrefix(t, "assumes:") {
+					r.trusted[t] = "postcondition assumed at call sites, not checked against the body"
+					continue
+				}
 				if c := cs.Funcs[t]; c != nil {
 					r.trusted[t] = c.TrustedWhy
 				}
